@@ -150,7 +150,7 @@ func init() {
 						if part == "hostname" && f != "rpm" {
 							continue
 						}
-						if (part == "subproc" || part == "sde") && i >= c01NQuick && c.only == "" && !c.heavy && c.name != "metadata-rich" {
+						if !env.Thorough() && (part == "subproc" || part == "sde") && i >= c01NQuick && c.only == "" && !c.heavy && c.name != "metadata-rich" {
 							continue
 						}
 						if part == "maporder" && c.heavy {
@@ -172,6 +172,18 @@ func init() {
 			}
 		},
 		Check: checkC07,
+	})
+}
+
+// touchAccessTimes moves the access time (and with it the inode change time) of everything below root, keeping mtimes.
+func touchAccessTimes(root string) {
+	at := time.Now().Add(-time.Duration(time.Now().UnixNano()%1000) * time.Hour)
+	filepath.Walk(root, func(p string, fi os.FileInfo, err error) error {
+		if err != nil || fi.Mode()&os.ModeSymlink != 0 {
+			return nil
+		}
+		os.Chtimes(p, at, fi.ModTime())
+		return nil
 	})
 }
 
@@ -312,12 +324,20 @@ func checkC07(env *engine.Env, ci any) engine.Outcome {
 	}
 	switch c.Part {
 	case "inproc":
-		for i := 0; i < 3; i++ {
+		reps, procs := 3, []int{1, 2, 4, 8, 16}
+		if env.Thorough() {
+			reps, procs = 6, []int{1, 2, 3, 4, 5, 6, 7, 8, 9, 10, 11, 12, 13, 14, 15, 16}
+		}
+		for i := 0; i < reps; i++ {
 			b, err := buildYAML(text, f)
 			add(fmt.Sprintf("repeat-%d", i), b, err)
 		}
+		// the sources are read (access times change) and their inode change times move: neither is an input
+		touchAccessTimes(t.Root)
+		ba, erra := buildYAML(text, f)
+		add("after-access-time-change", ba, erra)
 		old := runtime.GOMAXPROCS(0)
-		for _, n := range []int{1, 2, 4, 8, 16} {
+		for _, n := range procs {
 			runtime.GOMAXPROCS(n)
 			b, err := buildYAML(text, f)
 			add(fmt.Sprintf("GOMAXPROCS=%d", n), b, err)
@@ -364,8 +384,17 @@ func checkC07(env *engine.Env, ci any) engine.Outcome {
 			target := filepath.Join(work, "out.pkg")
 			os.Remove(target)
 			cmd := exec.Command(bin, "package", "-f", cp, "-p", f, "-t", target)
+			var penv []string
+			for _, e := range envv {
+				switch {
+				case strings.HasPrefix(e, "UMASK="):
+					cmd = exec.Command("sh", "-c", "umask "+strings.TrimPrefix(e, "UMASK=")+`; exec "$0" "$@"`, bin, "package", "-f", cp, "-p", f, "-t", target)
+				default:
+					penv = append(penv, e)
+				}
+			}
 			cmd.Dir = cwd
-			cmd.Env = append(os.Environ(), envv...)
+			cmd.Env = append(os.Environ(), penv...)
 			if o, err := cmd.CombinedOutput(); err != nil {
 				add(label, nil, fmt.Errorf("%v: %s", err, o))
 				return
@@ -380,6 +409,19 @@ func checkC07(env *engine.Env, ci any) engine.Outcome {
 		runBin("TZ=America/St_Johns", text, work, "TZ=America/St_Johns")
 		runBin("GOMAXPROCS=1", text, work, "GOMAXPROCS=1")
 		runBin("GOMAXPROCS=16", text, work, "GOMAXPROCS=16")
+		// the process umask, locale and home directory are not inputs
+		runBin("umask=077", text, work, "UMASK=077")
+		runBin("umask=000", text, work, "UMASK=000")
+		runBin("LC_ALL=tr_TR.UTF-8", text, work, "LC_ALL=tr_TR.UTF-8", "LANG=tr_TR.UTF-8")
+		runBin("HOME=/nonexistent", text, work, "HOME=/nonexistent", "USER=someone", "LOGNAME=someone")
+		if env.Thorough() {
+			for _, tz := range []string{"Pacific/Chatham", "Australia/Lord_Howe", "Pacific/Kiritimati", "Etc/GMT+12", "Europe/Dublin"} {
+				runBin("TZ="+tz, text, work, "TZ="+tz)
+			}
+			for _, n := range []string{"2", "3", "4", "8"} {
+				runBin("GOMAXPROCS="+n, text, work, "GOMAXPROCS="+n)
+			}
+		}
 		// sources referenced relative to another working directory
 		rel := cfg.doc(env, ".").YAML()
 		runBin("relative-sources", rel, t.Root)
